@@ -242,8 +242,10 @@ func (u *Unreliable) WriteMsgUDP(b, oob []byte, addr *net.UDPAddr) (n, oobn int,
 		return 0, 0, io.EOF
 	}
 
+	// Compare in int: uint16(len(b)) wraps for messages of 64 KiB or more,
+	// which were then accepted and framed with a bogus (small) length.
 	dataLength := uint16(len(b))
-	if uint16(len(b)) > MaxFrameDataLength {
+	if len(b) > int(MaxFrameDataLength) {
 		err = transport.ErrBufOverflow
 		return n, oobn, err
 	}
